@@ -110,6 +110,10 @@ func (d *Header) Verify(u *Header) error {
 		}
 		return nil
 	}
+	if u.Salt != d.Salt {
+		// a header of another fork never verifies against this one (non-adjacent: Verify makes it a soft failure)
+		return &header.VerifyError{Reason: ErrLink}
+	}
 	if tr := TrustRange.Load(); tr != 0 && u.H > d.H && u.H-d.H > tr {
 		return &header.VerifyError{Reason: ErrTooFar}
 	}
